@@ -8,7 +8,7 @@
    operands is evaluated on the observed graphs with the same `separated` predicate the theorems
    are about (HSeparate cases), their values are C09 / C10's subject. *)
 From Coq Require Import Lia.
-From Verif Require Import Model.Base Model.Heap Proofs.HeapFacts.
+From Verif Require Import Model.Base Model.Heap Proofs.HeapFacts Proofs.HeapValue.
 Open Scope list_scope.
 
 (* a copy only allocates: the heap its source lives in is extended, never written; and no location
@@ -21,6 +21,14 @@ Theorem C12_copy_shares_nothing : forall h v v' h',
   (forall l, Reach h' v' l -> Reach h' v l -> False).
 Proof. exact copy_frame_and_separation. Qed.
 Print Assumptions C12_copy_shares_nothing.
+
+(* a copy compares equal to its source: the snapshot of the copy is the snapshot of the source with
+   the method's nil/empty conventions applied (ntree_of), at every depth the fuel reaches, for every
+   well-typed heap *)
+Theorem C12_copy_equals_source : forall n h v v' h',
+  dense h -> wt_heap h -> wt_val h v -> dcopy n h v = (v', h') -> tree_of n h' v' = ntree_of n h v.
+Proof. exact copy_equals_source. Qed.
+Print Assumptions C12_copy_equals_source.
 
 (* mutating any part of one never changes the other: a store to a location a value does not reach
    leaves every snapshot of that value as it was (elements of lists and entries of maps included:
@@ -48,3 +56,8 @@ Example C12_example :
   (separated h' [v'] [HPtr 0] && negb (separated h' [HPtr 0] [HPtr 0]) && Nat.eqb (length h') 14
    && match hget h' 13 with Some (HMsg 1 fs) => hval_eqb (nth 17 fs HNil) HEmpty | _ => false end)%bool = true.
 Proof. vm_compute. reflexivity. Qed.
+
+Example C12_example_value :
+  let '(v', h') := copy_value ex_heap (HPtr 0) in
+  tree_of 6 h' v' = ntree_of 6 ex_heap (HPtr 0) /\ tree_of 6 h' v' <> tree_of 6 ex_heap (HPtr 0).
+Proof. vm_compute. split; [reflexivity|discriminate]. Qed.
